@@ -10,7 +10,9 @@
     property's own exception and are out of this scope); exceptions confirmed by reading are frozen below;
  R4 historical hiding: every result column handed to the model in a historical evaluation is replaced by 0 where the unit is below
     the reporting threshold, with the same comparator as the unit split (sibling agreement);
- R5 non-modelled units are removed from both model frames (decided by the truth table of C01 / C09; referenced here);
+ R5 non-modelled units are removed from both model frames (decided by the truth table of C01 / C09; referenced here), and the
+    outlier-detection models - regressions themselves - are fitted on candidate units only: no unit excluded by an explicit rule
+    is a row of their input (R5.outlier-input);
  R6 group-locality: where a group table reads the counted votes of nonreporting units from a second table by position (gaussian
     aggregate floor inside assign(lambda)), both tables have the same row signature (sorted by the keys, fresh range index), so a
     partial count only reaches the floor of its own group.
@@ -268,6 +270,32 @@ def _feature_purity(ctx):
     ctx.sites("C10.R2.symbolic", nsym, 8, "computed column selections in the featurizer")
 
 
+def _outlier_inputs(ctx, us, items):
+    """R5.outlier-input: the outlier-detection models are regressions too (their fit and their cut-off are computed from the
+    counts of every row they are given), so the frame handed to them must not contain a unit that is excluded by one of the
+    explicit rules (blocklist, zero baseline, turnout-factor limits): otherwise such a unit's count decides which OTHER units
+    are flagged and dropped from the model.  Decided on the truth table: rows(outlier input) & rows(explicit exclusion) = {}."""
+    SELF_ = ("param", "self")
+    explicit = [(cond, fr, cat) for cond, fr, cat in items
+                if not any(x[0] == "call" and x[1] == ("attr", SELF_, "_fit_outlier_detection_model") for x in ir.walk(fr))]
+    calls = []
+    for cond, fr, cat in items:
+        for x in ir.walk(fr):
+            if x[0] == "call" and x[1] == ("attr", SELF_, "_fit_outlier_detection_model") and x not in calls:
+                calls.append(x)
+    ctx.sites("C10.R5.outlier-input", len(calls), 2, "outlier-detection model fits in the unit split")
+    excl = rs.Or(*[rs.And(cond, us.rs.member(fr)) for cond, fr, cat in explicit])
+    for x in calls:
+        inp = us.rs.member(x[2][0])
+        ok, cex, n = rs.equivalent(rs.And(inp, excl), rs.F)
+        what = x[2][1][1] if len(x[2]) > 1 and x[2][1][0] == "const" else "?"
+        ctx.ob("C10.R5.outlier-input", f"{us.f.qualname}|outlier model on {what}: fitted on candidate units only", ok, us.f.where(),
+               f"no unit excluded by an explicit rule ({', '.join(str(c) for _, _, c in explicit)}) is a row of the outlier model's input "
+               f"({n} truth-table rows)" if ok
+               else f"a unit with [{rs.show_asg({str(k): v for k, v in cex.items()})}] is excluded by an explicit rule and still takes part in fitting the "
+                    f"outlier model on {what}: its count moves the cut-off and decides which other units are modelled")
+
+
 def _group_locality(ctx):
     """R6: at group level a partial count may only reach the floor of ITS OWN group.  The gaussian aggregate reads the counted
     votes of nonreporting units from a second table inside assign(lambda); pandas pairs rows by index label, so the pairing is
@@ -395,6 +423,7 @@ def _excluded(ctx):
     unexpected, nonmod, wrappers, items = us.nonmodelled()
     fNm = us.rs.member(nonmod)
     fUx = us.rs.member(unexpected)
+    _outlier_inputs(ctx, us, items)
     for name, fr in (("reporting", us.fR), ("nonreporting", us.fN)):
         ok1, cex, n = rs.equivalent(rs.And(fr, fNm), rs.F)
         ok2, cex2, n2 = rs.equivalent(rs.And(fr, fUx), rs.F)
